@@ -125,6 +125,9 @@ def pyEq (a b : Cell) : Bool :=
 
 def pyIn (c : Cell) (vs : List Cell) : Bool := vs.any (pyEq c)
 
+/-- the cell at `i` (only used below `xs.length`) -/
+def cellAt (xs : List Cell) (i : Nat) : Cell := xs.getD i .missing
+
 /-! ## sorted() -/
 
 /-- two values of a list handed to `sorted` can be told apart only by comparing them or by
@@ -329,11 +332,16 @@ def subLohisAll (cfg : Cfg) (s : Seq) : List (Nat × Nat) → Except Err (List (
 def calcLohisAux (cfg : Cfg) (t : Table) : List Nat → List (Nat × Nat) → Except Err (List (List (Nat × Nat)))
   | [], _ => .ok []
   | [_], cur => .ok [cur]
-  | k :: rest, cur => do
-    let s ← t.col k
-    let nxt ← subLohisAll cfg s cur
-    let more ← calcLohisAux cfg t rest nxt
-    pure (cur :: more)
+  | k :: k2 :: rest, cur =>
+    match t.col k with
+    | .error e => .error e
+    | .ok s =>
+      match subLohisAll cfg s cur with
+      | .error e => .error e
+      | .ok nxt =>
+        match calcLohisAux cfg t (k2 :: rest) nxt with
+        | .error e => .error e
+        | .ok more => .ok (cur :: more)
 
 /-- `_calc_lohis`: `dict(zip(self._indexes, lohis))` as an association list -/
 def Table.calcLohis (cfg : Cfg) (t : Table) : Except Err (List (Nat × List (Nat × Nat))) :=
@@ -435,30 +443,51 @@ def setCol (data : List (Nat × List Cell)) (c : Nat) (v : List Cell) : List (Na
 def indexLoop (cfg : Cfg) (last : Nat) :
     List Nat → List (Nat × List Cell) → List (Nat × Nat) → List Nat → Except Err (List (Nat × List Cell) × List Nat)
   | [], data, _, perm => .ok (data, perm)
-  | col :: rest, data, lohis, perm => do
-    let c ← lookupCol data col
-    let perm' ← sortSegments (fun i => c.getD i .missing) lohis perm
-    let c' := perm'.map (fun i => c.getD i .missing)
-    let data' := setCol data col c'
-    let lohis' ← if col ≠ last then subLohisAll cfg { base := c', sel := .all } lohis else pure lohis
-    indexLoop cfg last rest data' lohis' perm'
+  | col :: rest, data, lohis, perm =>
+    match lookupCol data col with
+    | .error e => .error e
+    | .ok c =>
+      -- indexes[lo:hi] = sorted(indexes[lo:hi], key=self._data[col].__getitem__) for every (lo,hi)
+      match sortSegments (cellAt c) lohis perm with
+      | .error e => .error e
+      | .ok perm' =>
+        -- self._data[col][:] = map(self._data[col].__getitem__, indexes)
+        let c' := perm'.map (cellAt c)
+        -- if col != indx[-1]: lohis = the runs of the column inside the old lohis
+        match (if col ≠ last then subLohisAll cfg { base := c', sel := .all } lohis else .ok lohis) with
+        | .error e => .error e
+        | .ok lohis' => indexLoop cfg last rest (setCol data col c') lohis' perm'
+
+/-- the index columns `Table.index(*indx)` works with: the names that are columns, repeated names
+dropped only with the repair (P14) -/
+def effIndex (cfg : Cfg) (t : Table) (indx : List Nat) : List Nat :=
+  let indx1 := indx.filter (fun c => t.columns.contains c)
+  if cfg.dedupIdx then dedupNat indx1 else indx1
+
+/-- `for col in self._data.keys()-set(indx): self._data[col][:] = map(self._data[col].__getitem__,indexes)` -/
+def permuteOthers (indx2 : List Nat) (perm : List Nat) (data : List (Nat × List Cell)) : List (Nat × List Cell) :=
+  data.map (fun (p : Nat × List Cell) => if indx2.contains p.1 then p else (p.1, perm.map (cellAt p.2)))
+
+/-- the `for col in indx` loop started on the whole table (nothing to do when no name is a column) -/
+def indexRun (cfg : Cfg) (indx2 : List Nat) (data : List (Nat × List Cell)) (n : Nat) :
+    Except Err (List (Nat × List Cell) × List Nat) :=
+  match indx2.getLast? with
+  | some last => indexLoop cfg last indx2 data [(0, n)] (List.range n)
+  | Option.none => .ok (data, List.range n)
 
 /-- `Table.index(*indx)` (only on tables that own their data) -/
 def Table.index (cfg : Cfg) (t : Table) (indx : List Nat) : Except Err Table :=
   if indx.isEmpty then .ok t
   else if t.data.isEmpty then .ok t
+  else if t.indexes = effIndex cfg t indx then .ok t
   else
-    let indx1 := indx.filter (fun c => t.columns.contains c)
-    let indx2 := if cfg.dedupIdx then dedupNat indx1 else indx1
-    if t.indexes = indx2 then .ok t
-    else do
-      let n ← t.len
-      let (data, perm) ← match indx2.getLast? with
-        | some last => indexLoop cfg last indx2 t.data [(0, n)] (List.range n)
-        | Option.none => pure (t.data, List.range n)
-      let data' := data.map (fun (p : Nat × List Cell) =>
-        if indx2.contains p.1 then p else (p.1, perm.map (fun i => p.2.getD i .missing)))
-      pure { t with data := data', indexes := indx2 }
+    match t.len with
+    | .error e => .error e
+    | .ok n =>
+      match indexRun cfg (effIndex cfg t indx) t.data n with
+      | .error e => .error e
+      | .ok (data, perm) =>
+        .ok { t with data := permuteOthers (effIndex cfg t indx) perm data, indexes := effIndex cfg t indx }
 
 /-! ### where -/
 
@@ -718,26 +747,47 @@ def Seq.slice (s : Seq) (l h : Nat) : Except Err (List Cell) := do
   let xs ← s.toList
   pure ((xs.drop l).take (h - l))
 
-def Table.groupby (cfg : Cfg) (t : Table) (level : Nat) (select : Select) : Except Err (List GroupOut) := do
-  let lohis ← t.calcLohis cfg
-  let grpCols ← (t.indexes.take level).mapM t.col
-  let ixcol ← optGet t.indexes[level]?
-  let segs ← dictGet lohis ixcol
-  let selCols ← match select with
-    | .one c => do let s ← t.col c; pure [s]
-    | .many cs => cs.mapM t.col
-    | _ => pure []
-  segs.mapM (fun (p : Nat × Nat) => do
-    let k ← grpCols.mapM (fun s => s.get p.1)
+/-- one `yield` of `groupby`: the index (cells of the group columns in the first row of the
+segment) and what `select` asks for -/
+def groupOne (select : Select) (grpCols selCols : List Seq) (p : Nat × Nat) : Except Err GroupOut :=
+  match grpCols.mapM (fun s => s.get p.1) with
+  | .error e => .error e
+  | .ok k =>
     match select with
-    | .keys => pure (GroupOut.key k)
-    | .count => pure (GroupOut.cnt k (p.2 - p.1))
-    | .one _ => do
-      let v ← match selCols with | [s] => s.slice p.1 p.2 | _ => .error .other
-      pure (GroupOut.one k v)
-    | .many _ => do
-      let vs ← selCols.mapM (fun s => s.slice p.1 p.2)
-      pure (GroupOut.many k vs))
+    | .keys => .ok (GroupOut.key k)
+    | .count => .ok (GroupOut.cnt k (p.2 - p.1))
+    | .one _ =>
+      match selCols with
+      | [s] => (match s.slice p.1 p.2 with | .ok v => .ok (GroupOut.one k v) | .error e => .error e)
+      | _ => .error .other
+    | .many _ =>
+      match selCols.mapM (fun s => s.slice p.1 p.2) with
+      | .ok vs => .ok (GroupOut.many k vs)
+      | .error e => .error e
+
+/-- the columns `select` names -/
+def selectCols (t : Table) (select : Select) : Except Err (List Seq) :=
+  match select with
+  | .one c => (match t.col c with | .ok s => .ok [s] | .error e => .error e)
+  | .many cs => cs.mapM t.col
+  | _ => .ok []
+
+def Table.groupby (cfg : Cfg) (t : Table) (level : Nat) (select : Select) : Except Err (List GroupOut) :=
+  match t.calcLohis cfg with
+  | .error e => .error e
+  | .ok lohis =>
+    match (t.indexes.take level).mapM t.col with
+    | .error e => .error e
+    | .ok grpCols =>
+      match optGet t.indexes[level]? with
+      | .error e => .error e
+      | .ok ixcol =>
+        match dictGet lohis ixcol with
+        | .error e => .error e
+        | .ok segs =>
+          match selectCols t select with
+          | .error e => .error e
+          | .ok selCols => segs.mapM (groupOne select grpCols selCols)
 
 def Table.copy (t : Table) : Table := t
 
@@ -919,9 +969,6 @@ def whereS (t : RowTable) (conds : List Cond) : Except Err (List (List Cell)) :=
 Each conjunct is forced: without it the code of the pinned tree (or any tree) answers differently
 from the plain evaluation; see the `_counterexample` theorems in `Props/C17.lean`. -/
 
-/-- the cell at `i` (only used below `xs.length`) -/
-def cellAt (xs : List Cell) (i : Nat) : Cell := xs.getD i .missing
-
 
 /-- operator and argument fit: a value for the six comparisons, a collection for `in` / `!in` -/
 def argShape : Op → ArgV → Bool
@@ -1055,6 +1102,23 @@ def whereWF (cfg : Cfg) (t : Table) (pos : Option Op) (kws : List (Nat × Arg)) 
     (match t.calcLohis cfg with
      | .error _ => false
      | .ok lohis => kws.all (kwOKB cfg t lohis (t.m b.length) pos))
+
+/-- hypotheses of `index_spec` as a decidable check: the table owns its lists (not a view) and is
+well-formed, at least one name given, the effective index columns are distinct (P14), differ from
+the current `_indexes` (otherwise `index` returns at once: P13), are columns, and their cells are
+mutually comparable and not `None` (otherwise `sorted` raises) -/
+def indexWF (cfg : Cfg) (t : Table) (indx : List Nat) : Bool :=
+  match t.data with
+  | [] => false
+  | (_, b) :: _ =>
+    decide (t.sel = Sel.all) && tableOKB t b.length && !indx.isEmpty && !t.columns.isEmpty
+    && decide (effIndex cfg t indx).Nodup && decide (t.indexes ≠ effIndex cfg t indx)
+    && (effIndex cfg t indx).all (fun d => t.columns.contains d && isOk (lookupCol t.data d) &&
+         allIn 0 b.length (fun x => (cellAt (t.base d) x).key != Key.none &&
+           allIn 0 b.length (fun y => (cellAt (t.base d) x).key.comparable (cellAt (t.base d) y).key)))
+
+/-- positions (in the row) of the index columns -/
+def idxPositions (columns : List Nat) (idx : List Nat) : List Nat := idx.map (fun d => columns.idxOf d)
 
 /-- lexicographic `<` of two rows on the columns `ks` (positions in the row) -/
 def lexLt (ks : List Nat) (r s : List Cell) : Bool :=
